@@ -92,7 +92,7 @@ def tlc(module, cfg=None, workers=8, simulate=None, depth=None, env=None, covera
     cfg = cfg or (module + ".cfg")
     meta = scratch("lcbv-meta-")
     jvm = ["java", "-XX:+UseParallelGC", "-Xmx" + xmx]
-    if xss: jvm.append("-Xss" + xss)
+    jvm.append("-Xss" + (xss or "64m"))
     if dfs: jvm.append("-Dtlc2.tool.queue.IStateQueue=StateDeque")
     cmd = jvm + ["-cp", TLAJAR, "tlc2.TLC", "-workers", str(workers), "-metadir", meta,
                  "-config", cfg]
@@ -117,6 +117,8 @@ def tlc(module, cfg=None, workers=8, simulate=None, depth=None, env=None, covera
     m = re.search(r"Error: (Invariant (\w+) is violated|Action property (\w+) is violated|Temporal properties were violated|Deadlock reached|.*)", out)
     if m: r.violation = m.group(1)
     if rc == 124: raise Infra("TLC timeout on %s/%s\n%s" % (module, cfg, out[-3000:]))
+    if rc == 0 and re.search(r"^Error: |StackOverflowError", out, re.M):
+        raise Infra("TLC reported an error but exited 0 on %s/%s:\n%s" % (module, cfg, out[-4000:]))
     if rc not in (0, 10, 11, 12, 13):
         raise Infra("TLC failed rc=%s on %s/%s:\n%s" % (rc, module, cfg, out[-6000:]))
     return r
